@@ -579,6 +579,10 @@ def run(ctx, facts):
                    "collector twice is freed while the second retirement still refers to it", floor=1)
     from .rules_c04 import rule_o10
     rule_o10(ctx, facts, rule="M9")
+    ctx.rule("M10", "a removed or replaced value is retired exactly once (rule O4 of C04): the second retirement of a value frees it again "
+                    "after the collector has already freed it", floor=3)
+    from .rules_c04 import rule_o4
+    rule_o4(ctx, facts, rule="M10")
     ctx.rule("M8", "bins are mutated and their nodes / values retired only inside a bin-lock region, after re-validating the locked head (rule L1 of C01): "
                    "otherwise a writer that waited for the lock works on a list that transfer has already copied and retired", floor=11)
     from .rules_c01 import rule_l1
